@@ -207,6 +207,17 @@ def corner_programs():
         out.append("struct Alt<T, U>(v: T, flip: Optional<Alt<U, T>>)\nlet n = Alt(1, some(Alt(%s, none())));\nlet r = n::flip.value()::v%s;\n" % (a, USE[a]))
         out.append("union Res<T, E>(ok: T, err: E)\nlet q: Res<int, str> = Res::ok(%s);\nlet r = q?:ok.value() + 1;\n" % a)
         out.append("union Res<T, E>(ok: T, err: E)\nlet q: Res<int, str> = Res::err(%s);\nlet r = q?:err.value() + \"!\";\n" % a)
+    # dynamic (derived) functions applied to operands of different element types: the factory must establish that the
+    # element-level function exists for exactly these types, or reject
+    W = ["1", '"x"', "true", "[1]", '["x"]', "[[1]]", "some(1)", 'some("x")', '(1, "x")', '("x", 1)', "[(1, 2)]", "[some(1)]"]
+    for a in W:
+        for b in W:
+            if a == b:
+                continue
+            for tmpl in ("let r = cmp(%s, %s);", "let r = %s < %s;", "let r = %s >= %s;", "let r = %s == %s;", "let r = %s != %s;", "let r = max(%s, %s);",
+                         "let r = [%s].contains(%s);", "let r = [%s, %s].sort();", "let r = hash((%s, %s));", "let r = to_str((%s, [%s]));",
+                         "let r = set().add(%s).add(%s).len();", "let r = mapping().set(%s, 1).lookup(%s);"):
+                out.append(tmpl % (a, b) + "\n")
     return out
 
 
@@ -228,7 +239,7 @@ def run(chk, tier, seed):
     texts += [s["src"] for s in corpus.scripts() if not s["cfg"].get("expected_violation")][:: (4 if tier == "quick" else 1)]
     texts += generic_programs(tier, rnd) + NEAR_MISS
     corners = corner_programs()
-    texts += corners if tier == "thorough" else corners[seed % 2::2]
+    texts += corners if tier == "thorough" else corners[seed % 3::3]
     texts = list(dict.fromkeys(texts))
     for i, t in enumerate(texts):
         jobs.append(job_for("t%d" % i, t, LIMITS[i % len(LIMITS)], {"regex": True}))
